@@ -79,9 +79,15 @@ def poke (v : View) (bs : List UInt8) : View :=
   { v with mem := splice v.mem v.init (bs.take (v.mem.length - v.init)) }
 
 /-- `BufferRef::cap_at` (private; reached through `Buffer::cap_at` + `with_buffer`):
-`assert!(*self.initialized_ == 0); &mut self.buffer[..index]` — the slice expression panics for
-`index > len` (defect D14). -/
+`assert!(*self.initialized_ == 0); let index = min(index, self.buffer.len()); &mut self.buffer[..index]`
+(the code after the repair of defect D14). -/
 def capAt (v : View) (n : Nat) : Option View :=
+  if v.init = 0 then some { mem := v.mem.take (min n v.mem.length), init := v.init }
+  else none
+
+/-- `cap_at` before the repair of D14: `&mut self.buffer[..index]` panics for `index > len`
+(kept for the witness theorem in `Props/C19.lean`; not used by the model) -/
+def capAtUnfixed (v : View) (n : Nat) : Option View :=
   if v.init = 0 then
     if n ≤ v.mem.length then some { mem := v.mem.take n, init := v.init } else none
   else none
